@@ -77,8 +77,12 @@ def oracle(case):
             rest = r[1:]
             for k in range(0, len(rest), case["wrap"]):
                 prows.append(rest[k:k + case["wrap"]])
-    spec = lastext.simple_spec(curves, prows, wrap="YES" if case.get("wrap") else "NO", null=case["null_text"])
+    spec = lastext.simple_spec(curves, prows, wrap="YES" if case.get("wrap") else "NO", null=case["null_text"], dlm=case.get("dlm"))
     spec["sections"][-1]["ncols"] = c
+    if case.get("dlm") == "COMMA":
+        for ln in spec["sections"][-1]["lines"]:
+            ln["seps"] = [","] * max(0, len(ln["toks"]) - 1)  # no blank after the comma
+        out.cls("dlm-COMMA")
     if case.get("later_null"):
         # an item called NULL in a later header section is just an item: only ~Well's NULL says what the marker is
         kind, val = case["later_null"]
@@ -180,6 +184,8 @@ def read_cases(draw):
                 engine=draw(st.sampled_from(["numpy", "normal"])), wrap=wrap)
     if not wrap and draw(st.integers(0, 3)) == 0:
         case["declared"] = draw(st.integers(0, c))
+    if not wrap and draw(st.integers(0, 4)) == 0:
+        case["dlm"] = "COMMA"
     from vlib import strategies as S_
     case["scaffold"] = draw(S_.scaffold())
     case["mnemonic_case"] = draw(st.sampled_from(["upper", "upper", "lower", "preserve"]))
